@@ -4,6 +4,7 @@ package sm2
 
 import (
 	"bytes"
+	crand "crypto/rand"
 	"fmt"
 	"math/big"
 	"os"
@@ -170,6 +171,38 @@ func TestVgC08SM2SignD(t *testing.T) {
 	vgNote("scenario L2_DerivePublic_d_tainted 1")
 }
 
+// The well-known GLOBAL source: callers pass crypto/rand.Reader itself; a library may recognise that very object
+// (interface identity) and take another route for it. The global is replaced by the tainted source for the call.
+//
+//go:noinline
+func vgL2_SignHashed_global_rand_reader_k_tainted(priv, e, stream []byte) {
+	saved := crand.Reader
+	crand.Reader = &taintedReader{data: stream, taint: true}
+	r, s, err := SignHashed(crand.Reader, priv, e)
+	crand.Reader = saved
+	utils.VgUnpoison(r)
+	utils.VgUnpoison(s)
+	if err != nil {
+		vgSink++
+	}
+	vgSink += len(r) + len(s)
+}
+
+//go:noinline
+func vgL2_GenerateKey_global_rand_reader_tainted(stream []byte) {
+	saved := crand.Reader
+	crand.Reader = &taintedReader{data: stream, taint: true}
+	priv, x, y, err := GenerateKey(crand.Reader)
+	crand.Reader = saved
+	utils.VgUnpoison(priv)
+	utils.VgUnpoison(x)
+	utils.VgUnpoison(y)
+	if err != nil {
+		vgSink++
+	}
+	vgSink += len(x)
+}
+
 func TestVgC08SM2SignK(t *testing.T) {
 	if !utils.VgRunning() {
 		t.Skip("not under valgrind")
@@ -185,6 +218,16 @@ func TestVgC08SM2SignK(t *testing.T) {
 	vgL2_GenerateKey_stream_tainted(append(vgKey(190), vgKey(191)...))
 	vgL2_GenerateKey_stream_tainted(append(bytes.Repeat([]byte{0xff}, 32), vgKey(192)...))
 	vgNote("scenario L2_GenerateKey_stream_tainted 2")
+	// nonces with leading zero words / bytes through the global source object
+	lead := vgKey(195)
+	for i := 0; i < 9; i++ {
+		lead[i] = 0
+	}
+	vgL2_SignHashed_global_rand_reader_k_tainted(vgKey(193), vgBytes(194, 32), append(lead, vgKey(196)...))
+	vgL2_SignHashed_global_rand_reader_k_tainted(vgKey(197), vgBytes(198, 32), append(vgKey(199), vgKey(200)...))
+	vgNote("scenario L2_SignHashed_global_rand_reader_k_tainted 2")
+	vgL2_GenerateKey_global_rand_reader_tainted(append(vgKey(201), vgKey(202)...))
+	vgNote("scenario L2_GenerateKey_global_rand_reader_tainted 1")
 }
 
 //go:noinline
